@@ -281,7 +281,7 @@ def shrink_body(body):
                     yield body[:i] + [dict(s, **{key: nb})] + body[i + 1 :]
         if k == "for":
             for fld, simple in (("lb", "%c0"), ("step", "%c1"), ("ub", "%c1"), ("ub", "%c2")):
-                if s[fld] != simple:
+                if s[fld] != simple and not (fld == "ub" and s[fld] in ("%c1", "%c2")):
                     yield body[:i] + [dict(s, **{fld: simple})] + body[i + 1 :]
         if k == "call" and s.get("callee") == "llvm":
             yield body[:i] + [dict(s, callee="func")] + body[i + 1 :]
